@@ -542,6 +542,34 @@ pub fn run_c17(ctx: &Ctx) -> Report {
         let mut uniq = 0u64;
         for _ in 0..steps {
             let k = rng.usize(3);
+            // other traffic between the chunks and the execution they belong to: none of it touches
+            // what has been accumulated
+            if rng.chance(1, 6) {
+                match rng.below(6) {
+                    0 | 1 => {
+                        cv.push(MCmd::Ping, None);
+                        shape.push_str("ping ");
+                    }
+                    2 => {
+                        cv.push(MCmd::Query(b"select 1".to_vec()), None);
+                        shape.push_str("query ");
+                    }
+                    3 => {
+                        cv.push(MCmd::Query(b"SELECT @@max_allowed_packet".to_vec()), None);
+                        shape.push_str("select@@ ");
+                    }
+                    4 => {
+                        cv.push(MCmd::FieldList(b"t\0".to_vec()), None);
+                        shape.push_str("fieldlist ");
+                    }
+                    _ => {
+                        cv.push(MCmd::Init(b"db".to_vec()), None);
+                        shape.push_str("initdb ");
+                    }
+                }
+                rep.counters.inc("other_commands_between_chunks_and_execute");
+                continue;
+            }
             if rng.chance(3, 5) {
                 // a chunk
                 let idx = if rng.chance(1, 10) { counts[k] as u16 + rng.below(3) as u16 } else { rng.below(counts[k] as u64) as u16 };
